@@ -10,6 +10,8 @@ import tempfile
 VERIF = os.path.dirname(os.path.dirname(os.path.abspath(__file__)))
 REPO = os.environ.get("VF_REPO", "/repo")
 LIB = os.path.join(REPO, "synced_collections")
+# where evidence and new replay files are written (experiments against seeded changes redirect it)
+OUT = os.environ.get("VF_OUT", VERIF)
 
 
 def seed():
